@@ -8,6 +8,9 @@ and compared entry by entry with an independent reference (mc/refmodels/slopes.p
 from the stated geometry through the von Karman covariance B(r), sample point by sample
 point, and knows nothing about blocks, separations, flips or mirroring.
 
+Sensor pairs on different grids (3x3 with 2x2) are part of the lattice: their projected sample
+points can coincide exactly (zero separation inside the structure function).
+
 Failure ids: `entrywise|<case>|blk=<i><a>-<j><b>` names the block (rows: sensor i axis a,
 columns: sensor j axis b, i >= j) of the returned matrix that disagrees, so the different
 assembly shortcuts of the builder show up under different ids.
